@@ -157,7 +157,7 @@ def run(ctx):
     for st in ("SUBCKT", "RESISTOR", "CAPACITOR", "INDUCTOR", "MOS", "DIODE", "BIPOLAR", "VSOURCE", "ISOURCE", "VCVS", "VCCS", "CCCS", "CCVS", "TLINE"):
         for dirs in (("none", "none"), ("in", "out", "inout"), ("out", "none", "in", "inout")):
             for pstyle in ("none", "ints", "mixed", "wholefloats"):
-                for lits in ((), ("lit one", "lit two")):
+                for lits in ((), ("lit one", "lit two"), ("  an indented line", "trailing blanks   ", "+ continuation \\\n", "\tboth\t\n")):
                     eitems.append((st, dirs, pstyle, lits))
     for it in eitems:
         status, r = _ext_one(it)
@@ -190,6 +190,23 @@ def run(ctx):
         ctx.outcome(("diff" if r else "same") + ":pathless")
         if r:
             ctx.violation(dict(corpus="pathless", variant=variant, what=classify(r)), dict(pathless=variant), r)
+    # (c3) the same cell names defined under two library paths (fresh process; see c11_twolibs.py)
+    import subprocess, sys, os, json
+
+    script = os.path.join(os.path.dirname(__file__), "c11_twolibs.py")
+    jobs = [(order, shape) for order in ("ab", "ba") for shape in ("hier", "flat", "both")]
+    procs = [subprocess.Popen([sys.executable, "-W", "ignore", script, o, sh], stdout=subprocess.PIPE, stderr=subprocess.PIPE, text=True, env=dict(os.environ)) for o, sh in jobs]
+    for (order, shape), pr in zip(jobs, procs):
+        out, err = pr.communicate(timeout=600)
+        try:
+            r = json.loads(out.strip().splitlines()[-1])["result"]
+        except Exception:
+            r = "scenario process failed: " + err[-300:]
+        ctx.count(states=1, transitions=3, traces_validated_against_impl=1)
+        ctx.fam("two_libraries", packages=1)
+        ctx.outcome(("diff" if r else "same") + ":twolibs")
+        if r:
+            ctx.violation(dict(corpus="two_libraries", shape=shape, what=classify(r)), dict(twolibs=[order, shape]), r)
     # (d) examples and generators
     for name in ["ro", "rdac", "encoder", "mos_sim", "diff_ota", "idac", "bundles"]:
         try:
@@ -233,6 +250,11 @@ def replay(body):
     elif "item" in c:
         it = c["item"]
         r = _ext_one((it[0], tuple(it[1]), it[2], tuple(it[3])))[1]
+    elif "twolibs" in c:
+        import subprocess, sys, os, json
+
+        out = subprocess.run([sys.executable, "-W", "ignore", os.path.join(os.path.dirname(__file__), "c11_twolibs.py")] + list(c["twolibs"]), capture_output=True, text=True).stdout
+        r = json.loads(out.strip().splitlines()[-1])["result"]
     else:
         r = "re-run the check for example packages"
     print("replay:", r or "round trip is the identity")
